@@ -196,12 +196,12 @@ def _corpus_body(rng, k):
     fs = corpus.files()
     f = fs[k % len(fs)]
     name, seqs = corpus.pipeline_piece(f)
-    d = max(s.get_sequence_duration() for s in seqs)
-    off = rng.randrange(0, max(1, d - 800)) // 96 * 96
-    seqs = [(s.split([off, 600])[1] if off > 0 and s.get_sequence_duration() > off else s.split([600])[0]) if s.get_sequence_duration() > 0 else s
-            for s in seqs]
+    # a run of consecutive bars of the piece (cut on the piece's own bar grid, so signature changes stay on bar lines)
     tb = Sequence.sequences_split_bars(seqs, 0)
-    proc = [Bar.to_sequence([b for b in trk]) for trk in tb]
+    nb = len(tb[0])
+    a0 = rng.randrange(0, max(1, nb - 6))
+    off = a0
+    proc = [Bar.to_sequence([b.copy() for b in trk[a0:a0 + 6]]) for trk in tb]
     cfg = tc.rand_cfg(rng, i=(k // len(fs)) % 16)
     cfg.update(tracks=len(proc), pitch=[21, 108], steps=None, values=None, bins=rng.choice([1, 4]))
     tok = tc.make_tok(cfg)
